@@ -81,6 +81,9 @@ type Pool struct {
 	// caused by context.DeadlineExceeded) while the run's context has a far deadline. The pool
 	// must not end normally then; if it does, the accounting below applies to it.
 	GunTimeout bool  `json:"gun_creation_times_out,omitempty"`
+	// ShotPanic: one shot in the middle of the run panics. The pool must not end normally then;
+	// if it does all the same, the accounting below applies to it.
+	ShotPanic bool  `json:"a_shot_panics,omitempty"`
 	Procs      int   `json:"gomaxprocs"`
 	Seed       int64 `json:"seed"`
 }
@@ -191,6 +194,9 @@ func genPool(rng *rand.Rand) Pool {
 		p.Ammo = map[string]int{"T-1": T - 1, "T+N": T + p.Instances, "10T": 10 * T}[p.AmmoClass]
 		p.Procs = 16
 	}
+	if rng.Intn(12) == 0 {
+		p.ShotPanic = true
+	}
 	if p.Ammo > 0 && p.Ammo <= 20000 && rng.Intn(4) == 0 {
 		p.Queued = true
 		p.LateStartup = rng.Intn(2) == 0
@@ -272,6 +278,10 @@ func runPool(res *vkit.Result, p Pool) {
 	if p.LateStartup {
 		startup = schedule.NewComposite(schedule.NewConst(0, 40*time.Millisecond), startup)
 	}
+	if p.ShotPanic {
+		plan.PanicAtShot = 3
+		plan.PanicVal = "verif: scripted shot panic"
+	}
 	if p.GunTimeout {
 		plan.NewGunErrAt = 1 // call 0 is the engine's warm-up gun
 		plan.NewGunErr = pkgerrors.WithMessage(context.DeadlineExceeded, "connect to target")
@@ -310,6 +320,11 @@ func runPool(res *vkit.Result, p Pool) {
 	if err != nil && p.GunTimeout {
 		// the pool did not end normally: nothing to account for
 		res.Count("pools_failed_on_gun_timeout", 1)
+		res.Eval(vkit.JSON(p), true)
+		return
+	}
+	if err != nil && p.ShotPanic {
+		res.Count("pools_failed_on_shot_panic", 1)
 		res.Eval(vkit.JSON(p), true)
 		return
 	}
@@ -408,6 +423,9 @@ var seeds = []Pool{
 	{Instances: 3, PerInstance: false, RPS: SchedSpec{Kind: "const", A: 20, DurMs: 3000}, Ammo: 12, AmmoClass: "ramp", Ramp: true, Seed: 9},
 	{Instances: 3, PerInstance: true, RPS: SchedSpec{Kind: "const", A: 20, DurMs: 3000}, Ammo: 12, AmmoClass: "ramp", Ramp: true, Seed: 10},
 	{Instances: 5, PerInstance: false, RPS: SchedSpec{Kind: "line", A: 10, B: 60, DurMs: 2000}, Ammo: 9, AmmoClass: "ramp", Ramp: true, ShotMaxUs: 2000, Seed: 11},
+	{Instances: 3, PerInstance: true, RPS: SchedSpec{Kind: "once", N: 5}, Ammo: 100, AmmoClass: "10T", ShotPanic: true, ShotMaxUs: 500, Seed: 19},
+	{Instances: 4, PerInstance: false, RPS: SchedSpec{Kind: "once", N: 40}, Ammo: 100, AmmoClass: "10T", ShotPanic: true, ShotMaxUs: 500, Seed: 20},
+	{Instances: 8, PerInstance: false, RPS: SchedSpec{Kind: "const", A: 1000, DurMs: 60}, Ammo: 1000, AmmoClass: "10T", ShotPanic: true, ShotMaxUs: 300, Seed: 21},
 	{Instances: 2, PerInstance: false, RPS: SchedSpec{Kind: "once", N: 5}, Ammo: 5, AmmoClass: "T", Queued: true, LateStartup: true, Seed: 16},
 	{Instances: 3, PerInstance: true, RPS: SchedSpec{Kind: "const", A: 200, DurMs: 50}, Ammo: 40, AmmoClass: "T+N", Queued: true, LateStartup: true, Seed: 17},
 	{Instances: 4, PerInstance: false, RPS: SchedSpec{Kind: "once", N: 30}, Ammo: 12, AmmoClass: "T-1", Queued: true, StartupConst: true, Seed: 18},
